@@ -30,4 +30,15 @@ theorem skeleton :
     "writeTotalInAsset*1" ∈ storage_finalizeTransaction_calls ∧ "UnspentOutputs*1" ∈ storage_finalizeTransaction_calls ∧
     "lockGhostKey*1" ∈ storage_writeUTXO_calls ∧ "writeWithdrawalClaim*1" ∈ storage_writeUTXO_calls := by decide
 
+/-- the database is touched only under the store mutex: the statements of `WriteSnapshot` before
+    `s.mutex.Lock()` mention no field of the store (in particular they do not open the Badger transaction,
+    whose read view would then predate the writers queued in front of it) -/
+theorem writeSnapshot_locks_before_reading :
+    storage_BadgerStore_WriteSnapshot_lockorder = "s.mutex.Lock;defer;prelock=" := by decide
+
+/-- the options of the database: conflict detection is not switched off (a queued writer with a stale view
+    must fail with `ErrConflict`, not overwrite) and nothing else about transactions is configured -/
+theorem openDB_keeps_conflict_detection :
+    storage_openDB_calls.filter (fun c => pre "WithDetectConflicts" c || pre "WithManaged" c) = [] := by decide
+
 end Mixin.Facts.ExpectedC15
